@@ -35,7 +35,7 @@ NOT_DECIDED = ["termination and exception types of third-party parsers (pypdf, o
 TRUSTED = ["CFG with exceptional edges (sa/engine/cfg.py)", "interval domain and regex minimum widths (sa/engine/loops.py, re._parser.getwidth)",
            "TextIOWrapper.write encodes its whole argument before buffering, so one write is all-or-nothing",
            "a generator's body runs only while it is iterated: exceptions surface at the consumer's next()"]
-FLOORS = {"C01-WRAP": 70, "C01-EXIT": 1, "C01-CLI": 6, "C01-REC": 15, "C01-LOOP": 25}
+FLOORS = {"C01-WRAP": 70, "C01-EXIT": 1, "C01-CLI": 6, "C01-REC": 15, "C01-LOOP": 25, "C01-UNBOUND": 150}
 
 LEGACY = {"read_doc", "read_ppt", "read_xls"}
 
@@ -713,4 +713,60 @@ def rule_loop(ctx: Ctx) -> RuleReport:
     return rep
 
 
-RULES = [rule_wrap, rule_exit, rule_cli, rule_rec, rule_loop]
+def rule_unbound(ctx: Ctx) -> RuleReport:
+    """A handler (or finally block) that reads a local which is not assigned on every path into it replaces the failure it was
+    meant to translate by an UnboundLocalError, which escapes the translation (`except Exception as exc: raise Family(f"... {page}")`)."""
+    from sa.engine.defassign import definitely_assigned, local_store_names
+
+    rep = RuleReport("C01-UNBOUND", "handlers and finally blocks read only locals that are assigned on every path into them")
+    n_handlers = 0
+    for fi in ctx.p.all_functions():
+        if not (fi.module.rel.startswith("sharepoint2text/") and "/tests/" not in fi.module.rel):
+            continue
+        tries = [t for t in walk_own(fi.node) if isinstance(t, ast.Try)]
+        if not tries:
+            continue
+        cfg = ctx.cfg(fi)
+        da = definitely_assigned(cfg, fi.node)
+        locs = local_store_names(fi.node)
+        for t in tries:
+            regions = [("except " + ",".join(_handler_names(h)), h.body) for h in t.handlers] + ([("finally", t.finalbody)] if t.finalbody else [])
+            for what, body in regions:
+                n_handlers += 1
+                bad = None
+                for nd in cfg.nodes:
+                    if nd.ast is None or nd.kind not in ("stmt", "test", "iter", "for", "with"):
+                        continue
+                    if not any(nd.ast is x or (nd.stmt is not None and nd.stmt is x) for b in body for x in ast.walk(b)):
+                        continue
+                    state = da.get(nd.id)
+                    if state is None:
+                        continue
+                    if nd.kind == "for":
+                        exprs = [nd.ast.iter]
+                    elif nd.kind == "with":
+                        exprs = [it.context_expr for it in nd.ast.items]
+                    elif isinstance(nd.ast, (ast.FunctionDef, ast.AsyncFunctionDef, ast.ClassDef, ast.Lambda)):
+                        exprs = []
+                    else:
+                        exprs = [nd.ast]
+                    reads = [x for e_ in exprs for x in ast.walk(e_) if isinstance(x, ast.Name) and isinstance(x.ctx, ast.Load) and x.id in locs and x.id not in state]
+                    # a name assigned earlier inside the same handler statement list is fine (state covers it); comprehension targets are their own scope
+                    comp_targets = {y.id for c in ast.walk(nd.ast) if isinstance(c, ast.comprehension) for y in ast.walk(c.target) if isinstance(y, ast.Name)}
+                    reads = [x for x in reads if x.id not in comp_targets]
+                    if reads:
+                        bad = (nd, reads[0])
+                        break
+                if bad is None:
+                    rep.ok({"fn": fi.qual, "region": what} if n_handlers % 25 == 0 else None)
+                else:
+                    nd, nm = bad
+                    rep.unit(fi.key)
+                    rep.fail(Finding("C01-UNBOUND", fi.module.rel, fi.qual, f"{what}: {short(nd.ast, 70)}",
+                                     f"`{nm.id}` is read in the {what.split()[0]} block but is not assigned on every path that leads there (an exception raised before its first assignment): the block itself raises UnboundLocalError and the original failure escapes untranslated", line=nm.lineno))
+    if n_handlers < 150:
+        raise AnalysisError(f"C01-UNBOUND: only {n_handlers} handler / finally regions found (150 confirmed)")
+    return rep
+
+
+RULES = [rule_wrap, rule_exit, rule_cli, rule_rec, rule_loop, rule_unbound]
